@@ -254,6 +254,14 @@ def run(ctx, method, sym=(), conc=None, elig=None, record_push=False,
         par.n_designs = 4
       mm = M['mm'].TBRMatchedMarkets(data, par)
       out.mm = mm
+      if history == 'interleave_small':
+        # as 'interleave', but the second object admits fewer geos
+        mm.treatment_group_size_range()
+        par0 = make_par_concrete(ctx, dict(n_pretest_max=int(
+            par.n_pretest_max), n_geos_max=2))
+        mm0 = M['mm'].TBRMatchedMarkets(data, par0)
+        with np.errstate(all='ignore'):
+          mm0.greedy_search()
       if history == 'interleave':
         # first object queried, a second object on the same data searched,
         # then the first object searched
